@@ -26,6 +26,17 @@ ARRAY_CACHES = [
 ]
 
 
+# pointer-array caches: (function, header, source, table type, constructor, extra constructor parameters, kernel parameters, call)
+POINTER_CACHES = [
+    ("reim_fft_simple", "reim/reim_fft_private.h", "reim/reim_fft_ref.c", "REIM_FFT_PRECOMP", "new_reim_fft_precomp", ", uint32_t nbuf", "double* d", "reim_fft_simple(m, r)"),
+    ("reim_ifft_simple", "reim/reim_fft_private.h", "reim/reim_fft_ref.c", "REIM_IFFT_PRECOMP", "new_reim_ifft_precomp", ", uint32_t nbuf", "double* d", "reim_ifft_simple(m, r)"),
+    ("reim_fftvec_mul_simple", "reim/reim_fft_private.h", "reim/reim_fft_ref.c", "REIM_FFTVEC_MUL_PRECOMP", "new_reim_fftvec_mul_precomp", " ", "double* d, const double* x, const double* y", "reim_fftvec_mul_simple(m, r, a, b)"),
+    ("reim_fftvec_addmul_simple", "reim/reim_fft_private.h", "reim/reim_fft_ref.c", "REIM_FFTVEC_ADDMUL_PRECOMP", "new_reim_fftvec_addmul_precomp", " ", "double* d, const double* x, const double* y", "reim_fftvec_addmul_simple(m, r, a, b)"),
+    ("cplx_fft_simple", "cplx/cplx_fft_private.h", "cplx/cplx_fft_ref.c", "CPLX_FFT_PRECOMP", "new_cplx_fft_precomp", ", uint32_t nbuf", "void* d", "cplx_fft_simple(m, r)"),
+    ("cplx_ifft_simple", "cplx/cplx_fft_private.h", "cplx/cplx_ifft_ref.c", "CPLX_IFFT_PRECOMP", "new_cplx_ifft_precomp", ", uint32_t nbuf", "void* d", "cplx_ifft_simple(m, r)"),
+]
+
+
 def cache_jobs():
     J = []
     common = dict(props=["C15", "C12"], shape="S2", sources=["commons.c", "commons_private.c"], harness="simple_cache.c", entry="h_simple_cache", no_dfcc=True,
@@ -39,6 +50,12 @@ def cache_jobs():
         J.append(Job(name="cache." + fn, defines=d, expect_statics={fn: [var]}, extra_gi=[x for b in bodies for x in ("--remove-function-body", b)], functions=[fn],
                      bound_note="loop-free, every m = 2^j (j < %d), ARBITRARY contents of the slot of the call and of one other ghost slot satisfying the invariant "
                                 "'empty or equal to what the real %s builds for 2^slot'; kernel bodies removed" % (nslot, init), **common))
+    for fn, hdr, src, typ, ctor, newp, kp, call in POINTER_CACHES:
+        d = {"WHICH": 2, "HDR": '"%s"' % hdr, "SRCFILE": '"%s"' % src, "T_": typ, "NEWPARAMS": newp, "KPARAMS": kp, "SIMPLE_CALL": call,
+             "ALIAS": '"%s::1::p"' % fn, "NSLOT": 31}
+        J.append(Job(name="cache." + fn, defines=d, expect_statics={fn: ["p"]}, extra_gi=["--replace-calls", "%s:verif_new" % ctor] + [x for b in {"reim/reim_fft_ref.c": ["reim_fft_ref"], "cplx/cplx_fft_ref.c": ["cplx_fft_ref"], "cplx/cplx_ifft_ref.c": ["cplx_ifft_ref"]}[src] for x in ("--remove-function-body", b)], functions=[fn],
+                     bound_note="loop-free, every m = 2^j (j < 31), ARBITRARY contents of the slot of the call and of one other ghost slot satisfying the invariant "
+                                "'empty or a table of dimension 2^slot'; constructor %s replaced by its assumed contract (fresh table for dimension m)" % ctor, **common))
     return J
 
 
